@@ -36,6 +36,7 @@ type zzLink struct {
 	maxFaults      int
 	lastToServer   *pool.Message
 	forge          bool
+	slow bool // the link is slow: before the second round trip more time passes than the requester's transfer timeout
 }
 
 func zzBody(m *pool.Message) []byte {
@@ -77,6 +78,12 @@ func (l *zzLink) relay(first *pool.Message) (*pool.Message, bool) {
 	msg := first
 	for round := 0; round < 12; round++ {
 		l.relayed++
+		if l.slow && round == 1 {
+			t := time.Unix(0, 1<<41).Add(2 * time.Hour)
+			symSetNow(t)
+			l.cli.CheckExpirations(t)
+			symCover("slow-link")
+		}
 		fault := 0
 		if l.faults < l.maxFaults {
 			fault = symChoose("fault", 4) // 0 deliver, 1 deliver twice, 2 drop, 3 a stale final block arrives first
@@ -284,7 +291,18 @@ func zzC04_upload() {
 		seenCF, _ = r.ContentFormat()
 		_ = w.SetResponse(codes.Changed, message.TextPlain, nil)
 	}
-	req := pool.NewMessage(context.Background())
+	rctx := context.Background()
+	if symChoose("slow-link", 2) == 1 {
+		l.maxFaults = 0
+		// a slow link: the caller's deadline is far away, the requester's transfer timeout is 1 hour, the second round trip
+		// starts after 2 hours (the responder is more patient still) - the request's own deadline governs
+		l.slow = true
+		l.srv = New(l.sc, 100*time.Hour, func(error) {}, nil)
+		var cancel context.CancelFunc
+		rctx, cancel = context.WithDeadline(rctx, time.Unix(0, 4102444800000000000)) // far beyond the transfer timeout (and, for the native replay, in the real future)
+		defer cancel()
+	}
+	req := pool.NewMessage(rctx)
 	req.SetCode(codes.POST)
 	req.SetToken(message.Token{0xE1})
 	_ = req.SetPath("/up")
@@ -298,6 +316,12 @@ func zzC04_upload() {
 	})
 	symObserve("completed", ok)
 	symAssert(err == nil, "Do returns without error when the relay does")
+	if ok {
+		symAssert(got.Code() != codes.Continue, "an interim 2.31 Continue is never presented to the requester as the outcome of the exchange")
+	}
+	if l.slow {
+		symAssert(ok && got.Code() == codes.Changed && l.srvDeliveries == 1, "a transfer that stays within the request's own deadline completes")
+	}
 	if ok && got.Code() != codes.Changed {
 		symCover("error-response")
 		symAssert(l.srvDeliveries == 0 || bytes.Equal(seen, body), "an error outcome never follows the delivery of a partial body")
